@@ -1244,6 +1244,14 @@ func (m *metadataAPI) RemoveFromISR(streamName, replica string, partitionID int3
 			replica, partition))
 	}
 
+	// Only in-sync followers are witnesses of a failed leader.
+	m.mu.RLock()
+	failover := m.partitionFailovers[partition]
+	m.mu.RUnlock()
+	if failover != nil {
+		failover.forget(replica)
+	}
+
 	partition.SetEpoch(epoch)
 	return nil
 }
